@@ -291,9 +291,9 @@ impl<RW: QueueRW<T>, T> MultiQueue<RW, T> {
             loop {
                 let (chead, wrap_valid_tag) = transaction.get();
                 let tail_cache = self.tail_cache.load(Relaxed);
-                if transaction.matches_previous(tail_cache) {
+                if transaction.at_or_behind_previous(tail_cache) {
                     let new_tail = self.reload_tail_multi(tail_cache, wrap_valid_tag);
-                    if transaction.matches_previous(new_tail) {
+                    if transaction.at_or_behind_previous(new_tail) {
                         #[cfg(multiqueue2_verif)]
                         crate::verif_hooks::probe(crate::verif_hooks::p::SEND_FULL_RETURNED);
                         return Err(TrySendError::Full(val));
@@ -339,9 +339,9 @@ impl<RW: QueueRW<T>, T> MultiQueue<RW, T> {
         let (chead, wrap_valid_tag) = transaction.get();
         unsafe {
             let tail_cache = self.tail_cache.load(Relaxed);
-            if transaction.matches_previous(tail_cache) {
+            if transaction.at_or_behind_previous(tail_cache) {
                 let new_tail = self.reload_tail_single(wrap_valid_tag);
-                if transaction.matches_previous(new_tail) {
+                if transaction.at_or_behind_previous(new_tail) {
                     #[cfg(multiqueue2_verif)]
                     crate::verif_hooks::probe(crate::verif_hooks::p::SEND_FULL_RETURNED);
                     return Err(TrySendError::Full(val));
